@@ -274,6 +274,21 @@ func crashSig(log string) (sig, line string, ok bool) {
 				fr = fr2
 			}
 		}
+		if fr == nil && strings.HasPrefix(m, "fatal error: concurrent map") {
+			// the runtime names only one of the two parties. When the goroutine it names is the application
+			// (the harness reading or writing a message it owns), the other party is whoever else still touches
+			// that message: a goroutine of the library that is copying, merging or decoding at that moment
+			for _, g := range strings.Split(log[idx:], "\n\n") {
+				if !strings.HasPrefix(strings.TrimSpace(g), "goroutine ") {
+					continue
+				}
+				if lf := frameRe.FindStringSubmatch(g); lf != nil && !strings.Contains(lf[1], "verifAt") &&
+					(strings.Contains(g, "protobuf/internal/impl.") || strings.Contains(g, "protobuf/proto.") || strings.Contains(g, "runtime.mapassign") || strings.Contains(g, "reflect.Value.SetMapIndex")) {
+					fr = lf
+					break
+				}
+			}
+		}
 		if fr == nil {
 			return "", m, false
 		}
